@@ -84,7 +84,7 @@ def one(sid):
         mp = os.path.join(d, 'meta.json')
         if os.path.exists(mp):
             old = json.load(open(mp))
-        for k in ("history", "ported", "round", "obsolete"):
+        for k in ("history", "ported", "round", "obsolete", "confirmed"):
             if k in old:
                 meta[k] = old[k]
         with open(mp, 'w', encoding='utf-8') as f:
